@@ -41,6 +41,26 @@ CreateParents == {<<>>} \cup {p \in DOMAIN nodes : Len(p) < MaxDepth}
 Ghosts == {Append(p, n) : p \in CreateParents, n \in Names} \ DOMAIN nodes
 MissingId(a) == IF DOMAIN a = {} THEN 1 ELSE Max(DOMAIN a) + 1
 
+(* Requests addressed below paths that do not exist, at depth 1..3: one path whose parent exists but that never
+   existed or was deleted, one that was created earlier in this history and is gone now, and both extended by one more
+   name (the parent is missing too).  Which requests are offered alternates with the length of the history, so that
+   these steps do not crowd out the others in a random walk. *)
+Range(sq) == {sq[i] : i \in DOMAIN sq}
+Created == {Append(h.path, h.name) : h \in {g \in Range(hist) : g.op \in {"mkbundle", "mkcat"}}}
+Missing1 == {Append(p, n) : p \in {<<>>} \cup {q \in DOMAIN nodes : Len(q) < 3}, n \in Names} \ DOMAIN nodes
+One(S) == IF S = {} THEN {} ELSE {CHOOSE x \in S : TRUE}
+StaleBase == One(Missing1) \cup One(Created \ DOMAIN nodes)
+StaleTargets == StaleBase \cup {Append(t, X) : t \in {u \in StaleBase : Len(u) < 3}}
+StaleSteps ==
+  IF Len(hist) % 2 = 0
+    THEN {[op |-> "mkcat", path |-> t, name |-> Y] : t \in StaleTargets}
+         \cup {[op |-> "post", path |-> t, parent |-> 0, title |-> T1, body |-> B1, date |-> D0] : t \in StaleTargets}
+         \cup {[op |-> "list", path |-> t] : t \in StaleBase}
+    ELSE {[op |-> "mkbundle", path |-> t, name |-> X] : t \in StaleTargets}
+         \cup {[op |-> "delitem", path |-> t] : t \in StaleTargets}
+         \cup {[op |-> "cats", path |-> t] : t \in StaleBase}
+         \cup {[op |-> "delart", path |-> Append(t, Y), id |-> 1, rec |-> 1] : t \in StaleBase}
+
 ArtIds(p) == DOMAIN nodes[p].arts
 On(o, S) == IF o \in Ops THEN S ELSE {}
 
@@ -62,6 +82,7 @@ AllSteps ==
   \cup On("cats", {[op |-> "cats", path |-> <<>>]})
   \cup On("reload", {[op |-> "reload"]})
   \cup On("setname", {[op |-> "setname", name |-> IF uname = U1 THEN U2 ELSE U1]})
+  \cup On("stale", StaleSteps)
 
 Step(s) == /\ Guard(s) /\ Apply(s) /\ hist' = Append(hist, s)
 
